@@ -303,6 +303,10 @@ func (w *world) build() {
 
 func clockValue(r *mrand.Rand) (time.Time, string) {
 	base := int64(1500000000000) + r.Int63n(400000000000) // ms, 2017..2030
+	if r.Intn(40) == 0 {
+		// a clock before the epoch: Go's int64 division truncates towards zero and the uint64 conversion wraps
+		return time.Unix(0, -int64(r.Intn(5000000))-1), "pre-epoch"
+	}
 	switch r.Intn(9) {
 	case 0:
 		return time.Unix(0, base*1e6), "ms-exact"
@@ -778,7 +782,7 @@ func runHistory(w *world, nSteps int, out *lib.Writer) {
 		note = "cross-certified-preissuer-dedup: " + notes[0]
 	}
 	out.Add(lib.Case{
-		Coq:    fmt.Sprintf("CHistory %s %s %s %s", lib.Bytes(logSPKI), kind, lib.List(tab), "[\n   "+strings.Join(coqSteps, ";\n   ")+"]"),
+		Coq:    fmt.Sprintf("CHistory %s %s %s %s", lib.Bytes(logSPKI), kind, lib.List(tab), "["+strings.Join(coqSteps, "; ")+"]"),
 		Input:  map[string]interface{}{"log_key": w.logKind, "roots": len(w.roots), "steps": recs},
 		Impl:   obss,
 		PropOK: propOK, Note: note, Tags: tags,
@@ -791,7 +795,7 @@ func main() {
 	klog.SetOutput(io.Discard)
 	r := lib.Rand()
 	out := lib.NewWriter(header, 2)
-	n := lib.Count(26, 360)
+	n := lib.Count(26, 240)
 	for i := 0; i < n; i++ {
 		w := &world{r: r, id: i}
 		w.logKind = []string{"p256", "rsa2048"}[i%2]
